@@ -146,7 +146,12 @@ def run_isolated(mod, case, timeout=900):
 # worker side
 # --------------------------------------------------------------------------
 
-def _worker_init():
+_STOP = None
+
+
+def _worker_init(stop=None):
+    global _STOP
+    _STOP = stop
     try:
         resource.setrlimit(resource.RLIMIT_AS, (MEM_LIMIT, MEM_LIMIT))
     except Exception:
@@ -176,6 +181,8 @@ def _chunk_task(pid, tier, seeds, want_digests):
                'viols': [], 'samples': [], 'digests': {}, 'errors': []}
         uses_index = getattr(mod, 'USES_INDEX', False)
         for index, seed in seeds:
+            if _STOP is not None and _STOP.is_set():
+                break       # the batch is being stopped (violation / cap)
             try:
                 case = mod.gen_case(seed, tier, index) if uses_index \
                     else mod.gen_case(seed, tier)
@@ -240,8 +247,12 @@ def _exec_task(pid, case):
 
 def make_pool(workers):
     ctx = multiprocessing.get_context('fork')
-    return ProcessPoolExecutor(
-        max_workers=workers, mp_context=ctx, initializer=_worker_init)
+    stop = ctx.Event()
+    pool = ProcessPoolExecutor(
+        max_workers=workers, mp_context=ctx, initializer=_worker_init,
+        initargs=(stop,))
+    pool.stop_event = stop
+    return pool
 
 
 # --------------------------------------------------------------------------
@@ -359,6 +370,11 @@ def check(pid, tier='quick', base_seed=0, workers=None, runs=None,
                 pending[pool.submit(_chunk_task, pid, tier, c, False)] = c
         for fut in pending:
             fut.cancel()
+        if pending:
+            pool.stop_event.set()       # running chunks return early
+            from concurrent.futures import wait as _wait
+            _wait(list(pending), timeout=120)
+            pool.stop_event.clear()
 
         rc = 0
         replay_paths = []
@@ -435,6 +451,7 @@ def build_evidence(mod, pid, tier, base_seed, agg, wall_s, nviol, known_hits,
         'seeds_per_hour': round(agg['runs'] / wall_s * 3600) if wall_s else 0,
         'workers': workers,
         'simulated_steps': stats.get('sim_steps', 0),
+        'simulated_clock_seconds': stats.get('sim_clock_seconds', 0),
         'simulated_ops': stats.get('ops', 0),
         'faults_fired_by_kind': faults,
         'probes_hit': probes,
